@@ -91,9 +91,6 @@ func (iter *commitNodeIteratorTopological) Next() (CommitNode, error) {
 			break
 		}
 
-		if toExplore.ID() != next.ID() && iter.exploreStack.Size() == 1 {
-			break
-		}
 		if generationV2 {
 			if toExplore.GenerationV2() < minimumLevel {
 				break
